@@ -733,6 +733,51 @@ func TestEnumReps(t *testing.T) {
 	suite.Extra("representation_matrix_exhaustive_over", fmt.Sprintf("%d container shapes x {root, in an array, in a map} x %d fragments x {direct, under a descent} x %d continuations (one more, a filter that refers to $, below the root) x 5 representations", len(shapes), len(frags), len(tails)))
 }
 
+// TestEnumDescentAfter: a descent that starts from several elements at once (after a wildcard,
+// union, slice or filter), where the first of them have nothing to find and a later one has it
+// strictly below itself: the functions that stop at the first match have to keep the elements
+// that are still waiting apart from the one they are expanding.
+func TestEnumDescentAfter(t *testing.T) {
+	m := func(kv ...any) map[string]any {
+		out := map[string]any{}
+		for i := 0; i+1 < len(kv); i += 2 {
+			out[kv[i].(string)] = kv[i+1]
+		}
+		return out
+	}
+	i := func(n int) *int { return &n }
+	k := func(s string) *string { return &s }
+	datas := []any{
+		[]any{m("c", int64(1)), m("b", m("a", int64(5))), m("a", int64(6), "c", m("a", int64(7)))},
+		[]any{m("c", m("c", int64(1))), m("c", int64(2)), m("b", []any{m("a", int64(5))}), []any{m("a", int64(8))}},
+		m("a", m("c", int64(1)), "b", m("b", m("a", int64(5))), "c", []any{m("a", int64(8))}),
+		[]any{[]any{int64(1), int64(2)}, []any{m("a", int64(5))}, m("a", []any{m("a", int64(9))})},
+		[]any{m("c", int64(1)), m("b", []any{int64(3), []any{int64(4), int64(5)}}), []any{[]any{int64(6)}}},
+	}
+	all := &jpx.Eq{Op: "neq", L: &jpx.Eq{Op: "get", P: jpx.Path{{K: "at"}}}, R: &jpx.Eq{Op: "const", CK: "int", CI: 99}}
+	heads := [][]jpx.Frag{
+		{{K: "wild"}}, {{K: "union", U: []jpx.UItem{{Idx: i(0)}, {Idx: i(1)}}}}, {{K: "union", U: []jpx.UItem{{Idx: i(0)}, {Idx: i(1)}, {Idx: i(2)}, {Idx: i(3)}}}},
+		{{K: "union", U: []jpx.UItem{{Key: k("a")}, {Key: k("b")}, {Key: k("c")}}}}, {{K: "slice", S: []int{0, 2}}}, {{K: "slice", S: nil}}, {{K: "slice", S: []int{-1, 0, -1}}},
+		{{K: "filter", F: all}}, {{K: "wild"}, {K: "wild"}}, {{K: "descent"}, {K: "wild"}}, {{K: "nth", N: 1}}, {},
+	}
+	tails := [][]jpx.Frag{{{K: "child", Key: "a"}}, {{K: "nth", N: 0}}, {{K: "nth", N: -1}}, {{K: "wild"}}, {{K: "child", Key: "a"}, {K: "nth", N: 0}}, {{K: "filter", F: all}}, {{K: "union", U: []jpx.UItem{{Key: k("a")}, {Idx: i(1)}}}}, {{K: "slice", S: []int{1}}}}
+	n := 0
+	for _, d := range datas {
+		enc := wx.Enc(d)
+		for _, h := range heads {
+			for _, tail := range tails {
+				p := append(append(append(jpx.Path{{K: "root"}}, h...), jpx.Frag{K: "descent"}), tail...)
+				for _, rep := range []string{"simple", "gen", "typed", "struct", "wrapped"} {
+					vrt.Eval(suite, "agree", Case{Path: p, Data: enc, Rep: rep, Max: 1 + n%3}, Run)
+					n++
+				}
+			}
+		}
+	}
+	suite.AddExtra("descent_after_matrix_cases", int64(n))
+	suite.Extra("descent_after_matrix_exhaustive_over", fmt.Sprintf("%d trees x %d fragments that select several elements x descent x %d continuations x 5 representations", len(datas), len(heads), len(tails)))
+}
+
 func TestPropRandom(t *testing.T) {
 	vrt.Rapid(t, suite, "agree", vrt.Scale(30000, 200000), drawCase, Run)
 }
